@@ -65,7 +65,7 @@ def rows_for(f, name):
 
 def check_residuals(P, R):
     from ..engines import dimrun
-    n, _ = dimrun.route(P, R, ["fa.fn_x", "fa.fn_x_ih", "fa.fn_z_i", "fa.fn_y_i"], rules=["DIM.", "EXT."], where_prefix=["factor_analysis:"])
+    n, _ = dimrun.route(P, R, ["fa.fn_x", "fa.fn_x_ih", "fa.fn_z_i", "fa.fn_y_i", "fa.latent_x_i"], rules=["DIM.", "EXT."], where_prefix=["factor_analysis:"])
     R.floor("DIM/EXT obligations (residual kernels)", n, 8)
     for name in ("_compute_fn_x_ih", "_compute_fn_z_i", "_compute_fn_y_i", "_compute_fn_x"):
         f = P.func(FA + name)
@@ -267,6 +267,11 @@ def run(P, R, tier):
     R.floor("OPT optional-factor selections", n_opt, 6)
     from ..engines import traps as _traps
     _traps.check(P, R, ['factor_analysis'], scope='factor_analysis:(FactorAnalysisBase\\.(_compute_\\w+|_latent_\\w+|compute_latent_x|update_[xyz]|_get_statistics_by_class_id|_sum_[nf]_statistics|initialize_XYZ)|ISVMachine\\.enroll|JFAMachine\\.enroll)')
+    from ..engines import proto as _pacc
+    n_acc_ = 0
+    for nm_ in ("_sum_n_statistics", "_sum_f_statistics"):
+        n_acc_ += _pacc.check_accumulation_signs(P, R, "factor_analysis:FactorAnalysisBase." + nm_)
+    R.floor("ACC.sum in-place accumulations", n_acc_, 2)
 
 
 EXPLANATION += ' Also: (POL.residual-placement / PREC.placement) every factor of the residuals multiplies and the UBM variances divide; (OPT) optional factors are used only where present and an absent factor contributes 0 / None; (IDX.class-select) the per-class selection compares labels with ==; (DTYPE.raw) no float is stored into a buffer with the dtype of user statistics.'
